@@ -207,6 +207,15 @@ def _job(job) -> List[Dict[str, Any]]:
     return out
 
 
+def closed_form_job(job) -> List[Dict[str, Any]]:
+    """The same comparison under another rule id (used by other checks as the exact small-game counterpart of a structural rule)."""
+    idx, tier, rule = job
+    out = _job((idx, tier))
+    for d in out:
+        d["rule"] = rule
+    return out
+
+
 def run(prog: Program, rep: Report, tier: str = "quick") -> None:
     roles = prog.roles()
     rep.explanation = (
